@@ -1,8 +1,8 @@
 #!/bin/bash
-# tools/round2.sh <ID>   try the three round-2 seeded changes in /tmp/seed2-<ID> against the check (overlay run, /repo untouched)
+# ROUND=<n> tools/round2.sh <ID>   try the three round-n seeded changes in /tmp/seed<n>-<ID> against the check (overlay run, /repo untouched)
 id=$1
 for k in 1 2 3; do
-  p=/tmp/seed2-$id/patch$k.diff
+  p=/tmp/seed${ROUND:-2}-$id/patch$k.diff
   [ -f "$p" ] || { echo "$id/$k no patch"; continue; }
   echo "$id/$k $(/verif/tools/trymutant_alt.sh $p $id 2>&1 | tail -1 | cut -c1-260)"
 done
